@@ -489,7 +489,9 @@ func (e *Engine) findMeasures() {
 			continue
 		}
 		for _, m := range re.FindAllStringSubmatch(string(b), -1) {
-			if e.ufuns[m[1]] != nil && !seen[m[1]] {
+			_, isGhost := e.specs.Ghosts[m[1]]
+			_, isPred := e.specs.Preds[m[1]]
+			if (e.ufuns[m[1]] != nil || isGhost || isPred) && !seen[m[1]] {
 				seen[m[1]] = true
 				e.measures = append(e.measures, m[1])
 			}
